@@ -226,3 +226,13 @@ mod weibull;
 mod zeta;
 mod ziggurat_tables;
 mod zipf;
+
+/// Verification hooks (only with `--cfg rand_distr_verif`): read-only re-export of the private
+/// ziggurat tables, so that an external harness can check their defining equations.
+#[cfg(rand_distr_verif)]
+#[doc(hidden)]
+pub mod verif_hooks {
+    pub use crate::ziggurat_tables::{
+        ZIG_EXP_F, ZIG_EXP_R, ZIG_EXP_X, ZIG_NORM_F, ZIG_NORM_R, ZIG_NORM_X,
+    };
+}
